@@ -169,7 +169,7 @@ theorem C04_partial (m : MethodDef) (hm : FnConfig m) (hkinds : ∀ p ∈ m.sig,
   have hs : m.sig.Simple := ⟨hkinds, hm.namesNodup⟩
   have hsR := refSig_simple m hs
   have hbindsig : reduceSig m.sig m.exclusions = refSig m := by
-    unfold MethodDef.exclusions
+    unfold MethodDef.exclusions MethodDef.ctxExclusion
     rw [hm.noExcl, List.append_nil, hm.notView]
     unfold refSig
     rcases hm.ctxOk with h | ⟨c, h, hne, _⟩
